@@ -21,7 +21,7 @@ import (
 // against something else (gradient and pattern units) are outside the rule.
 func c18PercentReferences(c *core.Check) {
 	p := c.Prog
-	r := c.Rule("R11", "percentages of geometry attributes: every attribute name stored (through parseValue) in a Value field of package svg that is resolved against the viewport is resolved, at some use of that field, against the reference SVG assigns to that name — x*, cx, rx, dx, width, refX, markerWidth: viewport width; y*, cy, ry, dy, height, refY, markerHeight: viewport height; r, stroke widths, dash offsets, letter-spacing, textLength: normalised diagonal", 20)
+	r := c.Rule("R11", "percentages of geometry attributes: every attribute name stored (through parseValue) in a Value field of package svg that is resolved against the viewport is resolved, at some use of that field, against the reference SVG assigns to that name — x*, cx, rx, dx, width, refX, markerWidth: viewport width; y*, cy, ry, dy, height, refY, markerHeight: viewport height; r, stroke widths, dash offsets, letter-spacing, textLength: normalised diagonal", 23)
 	pk := p.ByPath["svg"]
 	if pk == nil {
 		r.Anchor("package svg")
